@@ -71,6 +71,11 @@ func (trustStore *x509TrustStore) GetCertificates(ctx context.Context, storeType
 	if !file.IsValidFileName(namedStore) {
 		return nil, TrustStoreError{Msg: fmt.Sprintf("trust store name needs to follow [a-zA-Z0-9_.-]+ format, %s is invalid", namedStore)}
 	}
+	if namedStore == "." || namedStore == ".." {
+		// "." and ".." match the format above but name the store type
+		// directory and its parent, not a named store
+		return nil, TrustStoreError{Msg: fmt.Sprintf("trust store name %q is invalid", namedStore)}
+	}
 	path, err := trustStore.trustStorefs.SysPath(dir.X509TrustStoreDir(string(storeType), namedStore))
 	if err != nil {
 		return nil, TrustStoreError{InnerError: err, Msg: fmt.Sprintf("failed to get path of trust store %s of type %s", namedStore, storeType)}
